@@ -65,6 +65,10 @@ def make_specs(ctx):
             P = 0 if H == 0 else rng.choice([0, 1, 3, 2 * H + 1, 3 * H + 2, 37])
             add(H, P, subset, AB=rng.random() < .5, shear=rng.random() < .3, conformity=rng.random() < .5, ranks=rng.random() < .5,
                 velbias=True, rsd=rng.random() < .7, punsorted=rng.random() < .5)
+    # light cone whose observer sits exactly on a selected host
+    for H in (5, 17, 40):
+        add(H, 3 * H, c09.TRACERS, conformity=True, velbias=True, rsd=True, origin=True, observer_on_host=True)
+        specs[-1]['force_full'] = True
     # fewer hosts than threads with a particle table in file (not host) order, all three tracers, every thread count
     for H in (2, 3, 9, 13):
         add(H, 6 * H + 5, c09.TRACERS, conformity=True, velbias=True, rsd=True, punsorted=True)
@@ -97,8 +101,12 @@ def impl_threads(payload):
         rec = dict(idx=case['spec']['idx'], violation=None, outcome='ok')
         try:
             ref = c09.run_catalog(case, Nthread=1)
-            viol, inferred = c09.judge(case, ref, occ)
-            rec['inferred'] = inferred
+            if case['spec'].get('observer_on_host'):
+                # the row of the object at the observer is NaN by construction: only the thread-count relation is judged
+                viol = None
+            else:
+                viol, inferred = c09.judge(case, ref, occ)
+                rec['inferred'] = inferred
             rec['sizes'] = {T: [int(o['Ncent']), int(len(o['x']))] for T, o in ref.items()}
             if viol is not None:
                 rec['violation'] = dict(viol, n=1, what='single-thread catalogue violates the HOD rule (C09): ' + viol['what'])
